@@ -126,16 +126,21 @@ def linesOf (s : Bytes) : List Bytes :=
 
 def rstrip (l : Bytes) : Bytes := (l.reverse.dropWhile (fun c => c == SP || c == TAB)).reverse
 
-def specLines (s : Bytes) : List Bytes :=
-  ((linesOf s).map rstrip).filter (fun l => match l with | [] => false | c :: _ => c != HASHC)
+/-- a line that is an entry: not empty, not a `#` comment -/
+def isEntryLine (l : Bytes) : Bool :=
+  match l with
+  | [] => false
+  | c :: _ => c != HASHC
+
+def specLines (s : Bytes) : List Bytes := ((linesOf s).map rstrip).filter isEntryLine
 
 def specPlain (l : Bytes) : Ent := ⟨l, []⟩
 
 /-- `key:prepend` — split at the first colon; a line without colon is not an entry -/
 def specVdom (l : Bytes) : Option Ent :=
-  match l.span (· != COLON) with
-  | (k, _ :: v) => some ⟨k, v⟩
-  | (_, []) => none
+  match l.dropWhile (· != COLON) with
+  | _ :: v => some ⟨l.takeWhile (· != COLON), v⟩
+  | [] => none
 
 def specFirstLine (s : Bytes) : Bytes :=
   match linesOf s with
